@@ -41,6 +41,18 @@ CHECKS = {
    design="5 (C12)",
    note="serde_json is the format exercised; the dependencies of a module (imports) are loaded into the fresh VM before its bytecode; a damaged module that still loads is not judged",
    technique="TLC-generated corpus (Lang.tla) + differential replay source vs bytecode + fault enumeration on the serialised form"),
+ "C02": dict(
+   level="model_checking",
+   text="Programs: the well-typed Lang.tla corpus, the Retype mutants of Lang.tla (a hole silently changes its expected type; the real checker decides whether to accept), annotation-dropping variants, and multi-module programs (plain and IO-typed imported module). Every accepted program is compiled and run under a pairwise covering array (quick) or all 32 combinations (thorough) of the five compiler settings; no run may end in an internal compiler error, a VM shape complaint or a host panic, and the returned value must have the shape of the reported type (checked by an independent shape checker over the printed type).",
+   design="5 (C02)",
+   note="the oracle for mutants is the property itself (accepted => does not go wrong); value shapes are judged for Int, Bool, Option, records, tuples, arrays, functions and the generated list type",
+   technique="TLC generator with type-confusing mutation (Lang.tla PRetype) + replay under setting combinations"),
+ "C16": dict(
+   level="model_checking",
+   text="Session.tla is a determinism monitor: the observation of a source (value rendering, type text, diagnostics text, effect log) is bound at its first evaluation and must be equal at every later one. TLC generates histories (which source on which of 3 VMs in which order); the harness runs them with fresh VMs per history in separate worker processes, plus two fresh-process observations of every source; all events are validated against Trace_Session.tla by TLC (postcondition on the consumed trace length).",
+   design="5 (C16), 4.10",
+   note="observations are compared through a 30-bit hash inside the trace (collisions would hide a difference with probability 2^-30 per pair) and in full for the explanation; sources: Lang.tla programs, ill-typed mutants, std-using and erroneous hand-written programs",
+   technique="TLC-generated histories + trace validation of recorded sessions against Session.tla"),
 }
 NOT_BUILT = "check not built yet (work in progress; see DESIGN.md section 5)"
 NA = {}
